@@ -10,7 +10,8 @@ from hypothesis import strategies as st
 from . import gen
 from .refmodel import Registry
 
-METHOD_NAMES = Registry.NAMES + ["nope", "fault", "system.listMethods", "_private", "echo "]
+# the failing callable and the verbatim one weigh more: what they raise / return is a dimension of its own
+METHOD_NAMES = Registry.NAMES + ["nope", "fault", "system.listMethods", "_private", "echo ", "boom", "boom", "boom"]
 
 values = gen.json_values(6)
 
@@ -32,11 +33,30 @@ TRICKY_KEYS = ["self", "func", "method", "params", "args", "kwargs", "config", "
 SURROGATE_TEXT = ["\ud83d", "a\udfffb", "\ud800\ud800"]
 values = st.one_of(values, values, values, values, st.sampled_from(SURROGATE_TEXT))
 
+# values shaped like the protocol's own messages (in-band look-alikes): a callable may
+# legitimately return a stored reply, a request to forward, an error description
+LOOKALIKES = [
+    {"jsonrpc": "2.0", "id": "upstream-1", "result": 5},
+    {"jsonrpc": "2.0", "id": 0, "error": {"code": -32000, "message": "stored"}},
+    {"id": 12, "result": "done", "error": None},
+    {"id": None, "result": None, "error": {"code": 1, "message": "m"}},
+    {"id": 3, "result": 1},
+    {"result": 1, "error": None},
+    {"jsonrpc": "2.0", "method": "echo", "params": [1], "id": 99},
+    {"jsonrpc": "2.0", "method": "echo"},
+    {"code": -32601, "message": "look-alike"},
+    {"faultCode": 1, "faultString": "x"},
+    [{"jsonrpc": "2.0", "id": 1, "result": 1}],
+]
+values = st.one_of(values, values, values, values, values, values, st.sampled_from(LOOKALIKES))
+
 good_params = st.one_of(
     st.lists(values, max_size=3),
     st.dictionaries(st.sampled_from(["a", "b", "c", "k", "é"]), values, max_size=3),
     st.dictionaries(st.sampled_from(["a", "b"] + TRICKY_KEYS), values, max_size=3),
     st.sampled_from([[], {}, [1, 2], {"a": 1, "b": 2}, [None], {"a": None}]),
+    st.sampled_from(LOOKALIKES).map(lambda v: [v]),
+    st.sampled_from(LOOKALIKES).map(lambda v: {"x": v}),
 )
 
 
